@@ -116,8 +116,11 @@ Definition check (c : sexp) : sexp :=
           | Some F, Some Sc, Some D, Some (r0 :: runs), Some lines =>
               (* the hypotheses the theorems make about schemas must hold of every generated schema *)
               if negb (schema_ok Sc) then v_bad "schema-hypotheses-do-not-hold" else
-              let m1 := validate_model repaired id_order Sc F D in
-              let m2 := validate_model repaired rev_order Sc F D in
+              (* the code as it is (with the checked-pairs memo) under two map orders, and the same
+                 pipeline without the memo *)
+              let m1 := validate_model_memo repaired id_order Sc F D in
+              let m2 := validate_model_memo repaired rev_order Sc F D in
+              let plain := validate_model repaired id_order Sc F D in
               let stable := pos_list_eqb (outcome_locs m1) (outcome_locs m2) in
               let bad := violated Sc F D in
               let spec_valid := match bad with [] => true | _ => false end in
@@ -146,6 +149,8 @@ Definition check (c : sexp) : sexp :=
               (* ---- correspondence: the model against the implementation ---- *)
               else if negb (N.eqb (outcome_verdict m1) (outcome_verdict m2)) then
                 v_mismatch "model-verdict-depends-on-map-order" []
+              else if negb (N.eqb (outcome_verdict plain) (outcome_verdict m1)) then
+                v_mismatch "memo-changes-model-verdict" [SZ (Z.of_N (outcome_verdict plain)); SZ (Z.of_N (outcome_verdict m1))]
               else if negb (N.eqb (run_verdict r0) (outcome_verdict m1)) then
                 v_mismatch "verdict" [SZ (Z.of_N (outcome_verdict m1)); SZ (Z.of_N (run_verdict r0))]
               else
